@@ -406,6 +406,14 @@ func runCheck(args []string) int {
 		return 2
 	}
 	tEngine := time.Since(t0)
+	if f := os.Getenv("BOUNDED_DEV_DUMP"); f != "" {
+		// names + status + query size, in the order of generation (determinism check)
+		var sb strings.Builder
+		for _, o := range res.Obls {
+			fmt.Fprintf(&sb, "%s\t%s\t%d\n", o.Name, o.Status, o.SMTBytes)
+		}
+		os.WriteFile(f, []byte(sb.String()), 0o644)
+	}
 	v := core.Decide(env, cf, res, func(o *core.Obl) { bounded.Replay(env, p, prop, o) })
 	if os.Getenv("BOUNDED_DEV_EVIDENCE") != "" {
 		if err := core.WriteEvidence(env, cf, res, v, time.Since(t0), "bounded-dev check "+prop); err != nil {
